@@ -535,7 +535,10 @@ class CircuitTemplate(AbstractBaseTemplate):
                 columns.append(key)
                 data.append(out)
         if multi_index:
-            columns = MultiIndex.from_tuples(columns)
+            # plain keys (single-node requests) next to tuple labels: pad all labels to the same number of levels
+            n_lvls = max(len(c) if isinstance(c, tuple) else 1 for c in columns)
+            columns = [c if isinstance(c, tuple) else (c,) for c in columns]
+            columns = MultiIndex.from_tuples([c + ("",) * (n_lvls - len(c)) for c in columns])
         results = DataFrame(data=np.asarray(data).reshape(len(columns), -1).T, columns=columns, index=time_vec)
 
         # store current state of the network
